@@ -53,8 +53,9 @@ def h_integer_approximation(H, which, scale_bit, shift_pos, C):
     s_y = H.tensor('s_y', ())
     bias = H.itensor('int_bias', (C,))
     H.assume(H.and_(H.gt(s_w, 0), H.gt(s_x, 0), H.gt(s_y, 0)))
+    bmax = 2 ** (32 - scale_bit)            # even the largest admissible scale cannot overflow 32 bits: a valid (scale, shift) exists
     for b in H.elements(bias):
-        H.assume(H.and_(b >= -(2 ** 20), b <= 2 ** 20))
+        H.assume(H.and_(b >= -bmax, b <= bmax - 1))
     if H.symbolic:
         def contract(d, lo, hi, xx):
             r = H.fresh_int('bs_result')
@@ -170,7 +171,7 @@ PROPERTY = {
                      'wiring and the shared stateful quantizers)', 'MAUPITI layers: _integer_approximation hard-codes 16 scale bits x 32 shifts, the selection loop '
                      'forks per shift (2^32 paths) - out of reach; zero-point compensation', 'last-layer logits clause'],
         assumptions=['scale_bit / shift_pos enumerated small for the selection loop of _integer_approximation (each candidate shift forks the path)',
-                     'integer bias magnitudes up to 2^20 in the overflow clause'],
+                     'integer bias magnitude below 2^(32 - scale_bit): otherwise every candidate shift overflows and the selection returns None (torch.tensor(None) raises) - the regime where no valid answer exists is outside the clause'],
     ),
 }
 
